@@ -10,7 +10,7 @@ EXPECT = {
     "forwards its AuthorizerOptions": ["C11"],
     "evaluation goroutines terminate": ["C11"],
     "keep the root key identifier": ["C16", "C07"],
-    "SymbolTable.Str compares": ["C10"],
+    "SymbolTable.Str compares": ["C06"],
     "next secret that is not 32": ["C10"],
     "operator message without kind": ["C10"],
     "failing random source": ["C20"],
@@ -27,6 +27,7 @@ EXPECT = {
     "evaluation failed cannot be saved": ["C18"],
     "integer literals are base 10": ["C14"],
     "negative integer literals": ["C14"],
+    "LoadPolicies refuses serialized policies": ["C18"],
 }
 def sh(cmd, **kw):
     return subprocess.run(cmd, shell=True, capture_output=True, text=True, **kw)
